@@ -12,6 +12,9 @@ PROGS = {
     "ok_inc": ('@db $11\n@include "lib.inc"\n@db $22\n', True),
     # an image with a line break early and more than a kilobyte after it (what a line-buffered writer would cut)
     "ok_big": ('@db 1, 10, 2\n@ds 1500, $41\n@db 10\n@ds 1100, $42\n@db 3\n', False),
+    # @echo writes to standard error, never into the image stream
+    "ok_echo": ('@echo 6 * 7\n@echo "text"\n@db 1, 2\n@echo 1 + 1\n', False),
+    "fail_echo": ('@echo 6 * 7\n@db 1\n@echo "text"\n@db 300\n', False),
     "parse_fail": ('@db 1, 2, 3\n@dw 4\n@db 300\n@db 5\n', False),
     "parse_fail_late": ('@org $c000\nq: @ds 200\n@db "some bytes"\n  @bogus 1\n', False),
     "link_fail_undef": ('@db 1, 2, 3\n@dw nosuch\n@db 4\n', False),
@@ -100,7 +103,7 @@ def run(ck):
             key = (c[0], c[1], c[2] and c[2][1], c[3] and c[3][1], c[4] and c[4][1], c[5] and c[5][1])
             cls = (c[1], bool(c[2]), c[2] and "nodir" in c[2][1], c[3] and c[3][1], c[4] and c[4][1], c[5] and c[5][1])
             clean = not any(x and ("nodir" in x[1] or "nosuch" in x[1]) for x in (c[2], c[3], c[4], c[5]))
-            if cls not in seen or rng.random() < 0.12 or (clean and c[1] in ("ok", "ok_inc", "ok_big") and rng.random() < 0.7):
+            if cls not in seen or rng.random() < 0.12 or (clean and c[1] in ("ok", "ok_inc", "ok_big", "ok_echo") and rng.random() < 0.7):
                 seen.add(cls); keep.append(c)
         grid = keep
     runs = []
@@ -185,7 +188,7 @@ def run(ck):
     preds = run_cases(model, mlines)
 
     KNOWN_BYTES = {"ok_big": bytes([1, 10, 2]) + b"A" * 1500 + b"\n" + b"B" * 1100 + bytes([3]),
-                   "ok_inc": bytes([0x11, 0x99, 0x22]), "unsolved_symbol": bytes([7, 8])}
+                   "ok_inc": bytes([0x11, 0x99, 0x22]), "unsolved_symbol": bytes([7, 8]), "ok_echo": bytes([1, 2])}
     nviol = 0
     ref_stdout = {}
     for run, r, pred in zip(runs, results, preds):
@@ -198,7 +201,7 @@ def run(ck):
         withlib = bool(inc and inc[1] == "lib")
         nopts = sum(1 for x in (out, dbg, exp, inc) if x)
         # expectation by construction
-        img_ok = prog in ("ok", "ok_inc", "ok_big", "unsolved_symbol") and (not PROGS[prog][1] or withlib)
+        img_ok = prog in ("ok", "ok_inc", "ok_big", "ok_echo", "unsolved_symbol") and (not PROGS[prog][1] or withlib)
         all_ok = img_ok and not (out and "nodir" in out[1]) and not (inc and inc[1] == "nosuchdir") \
             and not (dbg and ("nodir" in dbg[1] or prog == "unsolved_symbol")) \
             and not (exp and (prog == "unsolved_symbol" or ("nodir" in exp[1] and (arch == "sm83" or prog == "ok"))))
